@@ -772,7 +772,11 @@ impl<F: FileSystem + Sync> Server<F> {
                 };
 
                 let enabled = capable & want;
-                let enabled_flags = enabled.bits();
+                let mut enabled_flags = enabled.bits();
+                // The client only looks at `flags2` when the reply carries FUSE_INIT_EXT.
+                if (enabled_flags >> 32) != 0 {
+                    enabled_flags |= FsOptions::INIT_EXT.bits();
+                }
                 let mut out = InitOut {
                     major: KERNEL_VERSION,
                     minor: KERNEL_MINOR_VERSION,
